@@ -225,6 +225,35 @@ func (h *histGen) history() {
 			g.Emit("%s", st.guard)
 		}
 	}
+	// the sibling family (every fifth history): from a view 1-4 levels below the child, two sibling views are
+	// opened one after the other and then a view below each of them - a view's root must not depend on what
+	// its parent handed out to others before or after it (state shared between sibling views)
+	if h.r.Intn(5) == 0 {
+		par := hs[0]
+		for _, x := range hs {
+			if x.id == st.child {
+				par = x
+			}
+		}
+		open := func(from handle, path string) handle {
+			g.Emit("view %d %d %s", next, from.id, hp(path))
+			nh := handle{next, from.inside, from.opq}
+			hs = append(hs, nh)
+			next++
+			h.count["op:view"]++
+			after(from)
+			return nh
+		}
+		deep := par
+		if d := h.r.Intn(5); d > 0 {
+			deep = open(par, strings.Join([]string{"a", "in", "b", "a"}[:d], "/"))
+		}
+		s1 := open(deep, "a")
+		s2 := open(deep, []string{"in", "b"}[h.r.Intn(2)])
+		open(s1, "b")
+		open(s2, "b")
+		h.count["family:siblings"]++
+	}
 	n := 6 + h.r.Intn(25)
 	for i := 0; i < n; i++ {
 		// 70 % through an inside handle
